@@ -98,6 +98,10 @@ func (f *WithInputFromString) Call(s *slip.Scope, args slip.List, depth int) (re
 	args = args[1:]
 	for i := range args {
 		result = slip.EvalArg(s2, args, i, d2)
+		switch result.(type) {
+		case *slip.ReturnResult, *GoTo:
+			return result
+		}
 	}
 	if place != nil {
 		pos, _ := reader.Seek(0, io.SeekCurrent)
